@@ -459,11 +459,11 @@ Proof.
 Qed.
 
 (* identities of promises *)
-Fixpoint admitted (k : Z) (rs : list res) : list Z :=
+Fixpoint granted (k : Z) (rs : list res) : list Z :=
   match rs with
   | [] => []
-  | RAdmit :: rs' => k :: admitted (k + 1) rs'
-  | _ :: rs' => admitted (k + 1) rs'
+  | RAdmit :: rs' => k :: granted (k + 1) rs'
+  | _ :: rs' => granted (k + 1) rs'
   end.
 
 Fixpoint resolved (ops : list op) (rs : list res) : list Z :=
@@ -474,10 +474,10 @@ Fixpoint resolved (ops : list op) (rs : list res) : list Z :=
   | _, _ => []
   end.
 
-Lemma admitted_length : forall rs k, Z.of_nat (length (admitted k rs)) = count RAdmit rs.
+Lemma granted_length : forall rs k, Z.of_nat (length (granted k rs)) = count RAdmit rs.
 Proof.
   induction rs as [|r rs IH]; intros k; [reflexivity|].
-  rewrite count_cons. destruct r; cbn [admitted length]; rewrite ?Nat2Z.inj_succ, IH; lia.
+  rewrite count_cons. destruct r; cbn [granted length]; rewrite ?Nat2Z.inj_succ, IH; lia.
 Qed.
 
 Lemma resolved_length : forall ops s, Z.of_nat (length (resolved ops (run s ops))) = count RDone (run s ops).
@@ -508,9 +508,9 @@ Proof.
   apply Z.eqb_eq in Heq. subst id. apply in_map. exact Hin.
 Qed.
 
-(* the promise table after a history: the admitted indices, newest first *)
+(* the promise table after a history: the granted indices, newest first *)
 Lemma proms_final : forall ops s,
-  map fst (proms (final s ops)) = rev (admitted (nextId s) (run s ops)) ++ map fst (proms s).
+  map fst (proms (final s ops)) = rev (granted (nextId s) (run s ops)) ++ map fst (proms s).
 Proof.
   induction ops as [|o ops IH]; intros s; [reflexivity|].
   cbn [final run].
@@ -533,7 +533,7 @@ Proof.
       + unfold fail. destruct (prom_start id (proms s)); reflexivity.
     - unfold nop_step. destruct o; try destruct (prom_start id (proms s)); reflexivity. }
   destruct (step s o) as [s' r]. cbn [fst snd] in *.
-  rewrite IH, Hn, Hp. destruct r; cbn [admitted rev]; rewrite <- ?app_assoc; reflexivity.
+  rewrite IH, Hn, Hp. destruct r; cbn [granted rev]; rewrite <- ?app_assoc; reflexivity.
 Qed.
 
 Lemma proms_grow : forall ops s id, In id (map fst (proms s)) -> In id (map fst (proms (final s ops))).
@@ -574,20 +574,20 @@ Lemma conservation_wf_core : forall c t0 ops,
   cenabled c = true ->
   let rs := run (init c t0) ops in
   NoDup (resolved ops rs) ->
-  incl (resolved ops rs) (admitted 0 rs) /\
+  incl (resolved ops rs) (granted 0 rs) /\
   flying (final (init c t0) ops) =
-    Z.of_nat (length (admitted 0 rs)) - Z.of_nat (length (resolved ops rs)) /\
+    Z.of_nat (length (granted 0 rs)) - Z.of_nat (length (resolved ops rs)) /\
   0 <= flying (final (init c t0) ops).
 Proof.
   intros c t0 ops Hen rs Hnd.
-  assert (Hincl : incl (resolved ops rs) (admitted 0 rs)).
+  assert (Hincl : incl (resolved ops rs) (granted 0 rs)).
   { intros x Hx. apply (resolved_incl ops (init c t0)) in Hx.
     rewrite proms_final in Hx. cbn [init proms map nextId] in Hx. rewrite app_nil_r in Hx.
     apply in_rev. exact Hx. }
   assert (Heq : flying (final (init c t0) ops) =
-                Z.of_nat (length (admitted 0 rs)) - Z.of_nat (length (resolved ops rs))).
+                Z.of_nat (length (granted 0 rs)) - Z.of_nat (length (resolved ops rs))).
   { rewrite conservation_core by exact Hen. unfold rs.
-    rewrite admitted_length, resolved_length. cbn [init flying]. lia. }
+    rewrite granted_length, resolved_length. cbn [init flying]. lia. }
   split; [exact Hincl|]. split; [exact Heq|].
   rewrite Heq. pose proof (NoDup_incl_length Hnd Hincl). lia.
 Qed.
